@@ -519,6 +519,11 @@ class QasmProcessor:
                 else:
                     qubit_name = reg
                     qubit = self.qubit_regs[qubit_name]
+                    if expand and expand != len(qubit):
+                        raise ValueError(
+                            "QASM: registers of different sizes "
+                            "in one statement"
+                        )
                     expand = len(qubit)
                 new_regs.append(qubit)
             if expand:
@@ -776,7 +781,7 @@ class QasmProcessor:
         """
 
         args, regs = _gate_processor(command)
-        reg_set = self._regs_processor(regs, "gate")
+        reg_set = list(self._regs_processor(regs, "gate"))
 
         if args:
             gate_name = "{}({})".format(command[0], ",".join(args))
@@ -798,11 +803,13 @@ class QasmProcessor:
 
         qc.user_gates = custom_gates
 
+        if command[0] in self.predefined_gates:
+            args = [eval(arg) for arg in args]
+
         # adds gate to the QubitCircuit
         for regs in reg_set:
             regs = [int(i) for i in regs]
             if command[0] in self.predefined_gates:
-                args = [eval(arg) for arg in args]
                 self._add_predefined_gates(
                     qc,
                     command[0],
